@@ -231,12 +231,477 @@ Proof.
       try (destruct (t_ok th0); use_impl; split_all; done);
       try (left; match goal with Hr : regress _ = true |- _ => rewrite Hr; reflexivity end);
       try (right; assumption);
+      try (match goal with Hd : regress _ = true \/ _ |- _ =>
+             destruct Hd as [Hr|Hr]; [left; rewrite Hr; reflexivity|right; exact Hr] end);
       try (excl_smu B')
     | _ =>
       try (rewrite Hpc in Hcs); cbn in Hcs; try discriminate Hcs;
       unfold ghost_ok in *; cbn_st; rewrite ?Hpc; cbn_st;
       use_impl; rewrite ?Hok, ?Htodo in *; try (destruct (t_ok th) eqn:?); use_impl; updf_split; use_impl; split_all; done;
-      try (apply regress_or; congruence)
+      try (apply regress_or; congruence);
+      try (match goal with Hs : smu _ (t_h ?th) = None, Hm : hmap _ (t_pub ?th) = Some (t_h ?th) |- _ =>
+             destruct (Gidle (t_pub th)) as [Gi1 Gi2];
+             [intros hx Hx; rewrite Hm in Hx; inversion Hx; subst; exact Hs | done] end)
     end.
-  Show.
-Admitted.
+Qed.
+
+Lemma G_idle_step cap s l s' : InvA s -> InvB cap s -> InvC s -> stepf fixed cap s l = Some s' -> G_idle s'.
+Proof.
+  intros A B C H. start A B C H.
+  all: unfold G_idle; cbn_st; try assumption; step_kind A2;
+    intros pp Hall;
+    try (pose proof (Bref _ _ Hth) as Rs; rewrite Hpc in Rs; cbn in Rs);
+    try (pose proof (Bsmu _ _ Hth) as Ls; rewrite Hpc in Ls; cbn in Ls);
+    try (pose proof (Cghost _ _ Hth) as Is; rewrite Hpc in Is; cbn in Is; unfold ghost_ok in Is; rewrite Hpc in Is; cbn_st);
+    use_impl;
+    try (apply Gidle; intros hx Hx; specialize (Hall hx); updf_split; use_impl; done; fail);
+    try (match goal with Hm : hmap _ (t_pub ?th) = Some (t_h ?th) |- _ =>
+           destruct (Nat.eq_dec pp (t_pub th)) as [E|E];
+           [ exfalso; subst pp; specialize (Hall _ Hm); congruence
+           | rewrite ?(updf_other _ _ _ _ E); apply Gidle; exact Hall ] end; fail).
+  - (* Remove *)
+    destruct (Nat.eq_dec pp p) as [E|E].
+    + subst pp. apply Gidle. intros hx Hx. rewrite Hhm in Hx. inversion Hx; subst hx.
+      destruct (smu s h) as [t1|] eqn:Es; [|reflexivity]. exfalso.
+      destruct (Gsmu _ _ Es) as (th1 & X1 & X2 & X3).
+      destruct (Bref _ _ X1 (in_smu_has_h _ X2)) as (Hin & _). rewrite X3, Hrefs in Hin. destruct Hin.
+    + rewrite (updf_other _ _ _ _ E) in Hall. apply Gidle. exact Hall.
+  - (* PUnlockS, async *)
+    destruct (Nat.eq_dec pp (t_pub th)) as [E|E]; [subst pp; split; assumption|].
+    apply Gidle. intros hx Hx. specialize (Hall hx Hx). revert Hall. updf_split; intro Hall; done.
+    exfalso. destruct (Gmap _ _ Hx) as [G1 _]. congruence.
+  - destruct (Nat.eq_dec pp (t_pub th)) as [E|E]; [subst pp; split; assumption|].
+    apply Gidle. intros hx Hx. specialize (Hall hx Hx). revert Hall. updf_split; intro Hall; done.
+    exfalso. destruct (Gmap _ _ Hx) as [G1 _]. congruence.
+Qed.
+
+Lemma G_L1_step cap s l s' : InvA s -> InvB cap s -> InvC s -> stepf fixed cap s l = Some s' -> G_L1 s'.
+Proof.
+  intros A B C H. start A B C H.
+  all: unfold G_L1; cbn_st; try assumption; step_kind A2;
+    intros hh mm Hp;
+    try (pose proof (Bref _ _ Hth) as Rs; rewrite Hpc in Rs; cbn in Rs);
+    use_impl; revert Hp; updf_split; intro Hp; inv_some; done;
+    try (pose proof (GL1 _ _ Hp) as I1); try (destruct (pending_current _ _ _ _ B' Hp) as [P1 P2]); done.
+Qed.
+
+Lemma G_L2_step cap s l s' : InvA s -> InvB cap s -> InvC s -> stepf fixed cap s l = Some s' -> G_L2 s'.
+Proof.
+  intros A B C H. start A B C H.
+  all: unfold G_L2; cbn_st; try assumption; step_kind A2;
+    intros pp Hall;
+    try (pose proof (Bref _ _ Hth) as Rs; rewrite Hpc in Rs; cbn in Rs);
+    use_impl;
+    try (apply GL2; intros hx Hx; specialize (Hall hx); updf_split; use_impl; done; fail).
+  - (* Remove *)
+    destruct (Nat.eq_dec pp p) as [E|E].
+    + subst pp. apply GL2. intros hx Hx. rewrite Hhm in Hx. inversion Hx; subst hx.
+      destruct (pending s h) as [m1|] eqn:Ep; [|reflexivity]. exfalso.
+      destruct (ptaker s h) as [t1|] eqn:Et; [|apply Gpt1 in Et; congruence].
+      destruct (Gpt2 _ _ Et) as (th1 & X1 & X2 & X3).
+      assert (Hh : has_h (t_pc th1) = true) by (unfold pretake in X2; destruct (t_pc th1); cbn in *; congruence).
+      destruct (Bref _ _ X1 Hh) as (Hin & _). rewrite X3, Hrefs in Hin. destruct Hin.
+    + rewrite (updf_other _ _ _ _ E) in Hall. apply GL2. exact Hall.
+  - (* WSwap, slot was empty *)
+    destruct (Nat.eq_dec pp (t_pub th)) as [E|E].
+    + exfalso. subst pp. specialize (Hall _ H0). rewrite updf_same in Hall. discriminate.
+    + rewrite (updf_other _ _ _ _ E). apply GL2. intros hx Hx. specialize (Hall hx Hx).
+      revert Hall. updf_split; intro Hall; done.
+  - destruct (Nat.eq_dec pp (t_pub th)) as [E|E].
+    + exfalso. subst pp. specialize (Hall _ H0). rewrite updf_same in Hall. discriminate.
+    + rewrite (updf_other _ _ _ _ E). apply GL2. intros hx Hx. specialize (Hall hx Hx).
+      revert Hall. updf_split; intro Hall; done.
+  - (* GTake *)
+    destruct (Nat.eq_dec pp (t_pub th)) as [E|E].
+    + subst pp. rewrite updf_same. pose proof (GL1 _ _ Hpend). congruence.
+    + rewrite (updf_other _ _ _ _ E). apply GL2. intros hx Hx. specialize (Hall hx Hx).
+      revert Hall. updf_split; intro Hall; done.
+      exfalso. destruct (Gmap _ _ Hx) as [G1 _]. congruence.
+Qed.
+
+(* the witness of the fifth disjunct of G_Q in the new thread map *)
+Ltac q_witness A1 :=
+  match goal with
+  | Q1 : threads ?s ?tq = Some ?thq |- exists t th, updf _ _ _ t = Some th /\ _ =>
+    pose proof (A1 _ _ Q1);
+    exists tq, thq; split; [repeat (rewrite updf_other by (first [assumption | congruence | lia])); exact Q1|]
+  | Q1 : threads ?s ?tq = Some ?thq |- exists t th, threads ?s t = Some th /\ _ =>
+    exists tq, thq; split; [exact Q1|]
+  | |- exists t th, updf ?f ?u (Some ?n) t = Some th /\ _ =>
+    exists u, n; split; [apply updf_same|]
+  end.
+
+Lemma G_Q_step cap s l s' : InvA s -> InvB cap s -> InvC s -> stepf fixed cap s l = Some s' -> G_Q s'.
+Proof.
+  intros A B C H. start A B C H.
+  all: unfold G_Q; cbn_st; try assumption; step_kind A2;
+    intros pp; pose proof (GQ pp) as Q;
+    try (pose proof (Cmsg _ _ Hth) as Ms; rewrite Hpc, ?Hkind in Ms; cbn in Ms);
+    try (pose proof (Cstop _ _ Hth) as Ss; rewrite Hpc in Ss; cbn in Ss);
+    try (apply orb_prop in Hsame; rewrite !Nat.eqb_eq in Hsame);
+    try (apply same_false in Hsame);
+    use_impl; updf_split;
+    destruct Q as [Q|[Q|[Q|[Q|(tq & thq & Q1 & Q2 & Q3 & Q4)]]]];
+    try (destruct (Nat.eq_dec tq t) as [Et|Et]; [subst tq; same_thread|]);
+    rewrite ?Hpc, ?Hkind in *; cbn in *;
+    first
+      [ solve [left; done]
+      | solve [right; left; done]
+      | solve [right; right; left; first [assumption | right; assumption | left; unfold err_event; congruence]]
+      | solve [right; right; right; left; done]
+      | solve [right; right; right; right; q_witness A1; cbn_st; rewrite ?Hpc, ?Hkind; split_all; done]
+      | idtac ].
+  - destruct (Nat.eq_dec tq watcher_tid) as [Et|Et].
+    + exfalso. subst tq. same_thread. rewrite Hpc in Q4. discriminate.
+    + right; right; right; right. exists tq, thq. split_all; try assumption.
+      rewrite updf_other by assumption. exact Q1.
+  - subst pp. destruct Hsame as [Hz|Hz]; [left; congruence|right; left; congruence].
+Qed.
+
+(* ---- reports: every ad up to the goal is reported or owed, once ---- *)
+
+Lemma desc_perm m k : k <= m -> Permutation (desc m k) (seq (S (m - k)) k).
+Proof.
+  revert m. induction k as [|k IH]; intros m Hk; cbn [desc seq]; [constructor|].
+  destruct m as [|m]; [lia|].
+  replace (S m - 1) with m by lia.
+  assert (Hk' : k <= m) by lia. specialize (IH m Hk').
+  replace (S m - S k) with (m - k) by lia.
+  (* seq (S (m-k)) (S k) = seq (S (m-k)) k ++ [S m] *)
+  replace (S (m - k) :: seq (S (S (m - k))) k) with (seq (S (m - k)) (S k)) by reflexivity.
+  rewrite seq_S. replace (S (m - k) + k) with (S m) by lia.
+  apply Permutation_cons_app. rewrite app_nil_r. exact IH.
+Qed.
+
+Lemma walk_perm stop head l :
+  stop < head -> Permutation l (seq 1 stop) ->
+  Permutation (l ++ walk stop head) (seq 1 head).
+Proof.
+  intros Hlt Hp. unfold walk. apply Nat.ltb_lt in Hlt. rewrite Hlt. apply Nat.ltb_lt in Hlt.
+  replace head with (stop + (head - stop)) at 3 by lia. rewrite seq_app.
+  apply Permutation_app; [exact Hp|].
+  replace (1 + stop) with (S (head - (head - stop))) by lia.
+  apply desc_perm. lia.
+Qed.
+
+Lemma ads_of_cons_same t p a l : ads_of p ((t, p, a) :: l) = a :: ads_of p l.
+Proof. unfold ads_of. cbn. rewrite Nat.eqb_refl. reflexivity. Qed.
+Lemma ads_of_cons_other t p q a l : q <> p -> ads_of q ((t, p, a) :: l) = ads_of q l.
+Proof. intro H. unfold ads_of. cbn. destruct (Nat.eqb_spec p q); [congruence|reflexivity]. Qed.
+
+Lemma G_O_step cap s l s' : InvA s -> InvB cap s -> InvC s -> stepf fixed cap s l = Some s' -> G_O s'.
+Proof.
+  intros A B C H. start A B C H.
+  all: unfold G_O; cbn_st; try assumption; step_kind A2;
+    intros Hr pp;
+    try (apply orb_false_elim in Hr; destruct Hr as [Hr Hr']);
+    pose proof (GO Hr pp) as Ip;
+    try (pose proof (Cghost _ _ Hth) as Is; rewrite Hpc in Is; cbn in Is; unfold ghost_ok in Is; rewrite Hpc in Is; cbn_st);
+    try (pose proof (Cstop _ _ Hth) as Ss; rewrite Hpc in Ss; cbn in Ss);
+    use_impl; try exact Ip.
+  - destruct (Nat.eq_dec pp (t_pub th)) as [E|E].
+    + subst pp. rewrite !updf_same. destruct H3 as [H3|H3]; [congruence|].
+      apply walk_perm; [exact H3|]. rewrite H, app_nil_r in Ip. rewrite H0, <- Ss in Ip. exact Ip.
+    + rewrite !(updf_other _ _ _ _ E). exact Ip.
+  - destruct (Nat.eq_dec pp (t_pub th)) as [E|E].
+    + subst pp. rewrite !updf_same. destruct H3 as [H3|H3]; [congruence|].
+      apply walk_perm; [exact H3|]. rewrite H, app_nil_r in Ip. rewrite H0, <- Ss in Ip. exact Ip.
+    + rewrite !(updf_other _ _ _ _ E). exact Ip.
+  - destruct (Nat.eq_dec pp (t_pub th)) as [E|E].
+    + subst pp. rewrite updf_same, ads_of_cons_same. rewrite H, Htodo in Ip.
+      cbn [app]. eapply Permutation_trans; [|exact Ip]. apply Permutation_middle.
+    + rewrite (updf_other _ _ _ _ E), (ads_of_cons_other _ _ _ _ _ E). exact Ip.
+  - destruct (Nat.eq_dec pp (t_pub th)) as [E|E].
+    + subst pp. rewrite updf_same, ads_of_cons_same. rewrite H, Htodo in Ip.
+      cbn [app]. eapply Permutation_trans; [|exact Ip]. apply Permutation_middle.
+    + rewrite (updf_other _ _ _ _ E), (ads_of_cons_other _ _ _ _ _ E). exact Ip.
+Qed.
+
+Lemma G_R_step cap s l s' : InvA s -> InvB cap s -> InvC s -> stepf fixed cap s l = Some s' -> G_R s'.
+Proof.
+  intros A B C H. start A B C H.
+  all: unfold G_R; cbn_st; try assumption; try (intros; discriminate); step_kind A2;
+    intros Hn Ho;
+    try (apply andb_prop in Ho; destruct Ho as [Ho Ho2]; apply andb_prop in Ho; destruct Ho as [Ho Ho1]);
+    try (pose proof (Cexp _ _ Hth) as Es; rewrite Hkind in Es; cbn in Es; specialize (Es eq_refl); congruence);
+    destruct (GR Hn Ho) as [R1 R2];
+    try (pose proof (Cmsg _ _ Hth) as Ms; rewrite Hpc, ?Hkind in Ms; cbn in Ms);
+    try (pose proof (Cstop _ _ Hth) as Ss; rewrite Hpc in Ss; cbn in Ss);
+    try (pose proof (Cwmsg _ _ Hth) as Ws; rewrite Hpc in Ws; cbn in Ws);
+    try (pose proof (Bref _ _ Hth) as Rs; rewrite Hpc in Rs; cbn in Rs);
+    try (pose proof (GL1 _ _ Hpend) as L1);
+    use_impl;
+    (split; [ try assumption | intro pp; pose proof (R2 pp) as Rp; pose proof (R2 (t_pub th)) as Rt; updf_split; done;
+                               try (rewrite ?H1 in *; subst pp; lia) ]).
+  cbn. rewrite R1. cbn. apply Nat.ltb_ge. pose proof (R2 (t_pub th)). lia.
+Qed.
+
+Lemma invC_init : InvC init.
+Proof.
+  unfold InvC. split_all.
+  - intros t th H Hc. apply init_thread in H. destruct H; subst. discriminate.
+  - intros t th H Hk. apply init_thread in H. destruct H; subst. discriminate.
+  - intros t th H Hc. apply init_thread in H. destruct H; subst. discriminate.
+  - intros t th H Hk. apply init_thread in H. destruct H; subst. discriminate.
+  - intros t th H Hc. apply init_thread in H. destruct H; subst. discriminate.
+  - intros p _. cbn. auto.
+  - intros h m H. discriminate.
+  - intros p _. reflexivity.
+  - intro p. left. reflexivity.
+  - intros p H. discriminate.
+  - intros _ p. cbn. constructor.
+  - intros _ _. cbn. split; [reflexivity|]. intro p. lia.
+Qed.
+
+Lemma invC_step cap s l s' : InvA s -> InvB cap s -> InvC s -> stepf fixed cap s l = Some s' -> InvC s'.
+Proof.
+  intros A B C H. unfold InvC. split_all.
+  - eapply C_stop_step; eauto.
+  - eapply C_msg_step; eauto.
+  - eapply C_ghost_step; eauto.
+  - eapply C_exp_step; eauto.
+  - eapply C_wmsg_step; eauto.
+  - eapply G_idle_step; eauto.
+  - eapply G_L1_step; eauto.
+  - eapply G_L2_step; eauto.
+  - eapply G_Q_step; eauto.
+  - eapply G_src_step; eauto.
+  - eapply G_O_step; eauto.
+  - eapply G_R_step; eauto.
+Qed.
+
+Theorem invC_reach cap s : reach fixed cap s -> InvC s.
+Proof.
+  apply (invariant_reachable2 (stepf fixed cap) (fun s => InvA s /\ InvB cap s) InvC).
+  - intros s0 R. split; [eapply invA_reach|eapply invB_reach]; exact R.
+  - apply invC_init.
+  - intros s0 l s1 [A B] C H. eapply invC_step; eauto.
+Qed.
+
+(* ------------------------------------------------------------------ *)
+(* Theorems from layer C                                               *)
+
+Lemma quiescent_no_pretake s t th : quiescent s -> threads s t = Some th -> pretake th = false.
+Proof.
+  intros Q H. specialize (Q _ _ H). unfold pretake. destruct (t_pc th); cbn in *; congruence.
+Qed.
+
+(* when activity ceases no announcement is left in a slot, and the last message taken
+   for each publisher is the last one the watcher received *)
+Theorem last_announcement_acted_on cap s :
+  reach fixed cap s -> quiescent s ->
+  (forall h, pending s h = None) /\ (forall p, lastTaken s p = lastRecv s p) /\ panicked s = false.
+Proof.
+  intros R Q. pose proof (invB_reach _ _ R) as B. pose proof (invC_reach _ _ R) as C.
+  destruct_B B. destruct_C C.
+  assert (P : forall h, pending s h = None).
+  { intro h. destruct (pending s h) as [m|] eqn:E; [|reflexivity]. exfalso.
+    destruct (ptaker s h) as [t|] eqn:Et; [|apply Gpt1 in Et; congruence].
+    destruct (Gpt2 _ _ Et) as (th & X1 & X2 & X3).
+    rewrite (quiescent_no_pretake _ _ _ Q X1) in X2. discriminate. }
+  split_all; [exact P| |exact Gpan].
+  intro p. apply GL2. intros h _. apply P.
+Qed.
+
+(* ... and that message was acted on: latest sync is the last announced head, or an
+   error event for it was emitted, or an explicit sync has recorded a latest sync since *)
+Theorem quiescent_latest cap s p :
+  reach fixed cap s -> quiescent s ->
+  lastRecv s p = 0 \/ latest s p = lastRecv s p \/ In (err_event p (lastRecv s p)) (events s) \/
+  (lsrc s p = true /\ nexp s = true).
+Proof.
+  intros R Q. destruct (last_announcement_acted_on _ _ R Q) as (_ & L & _).
+  pose proof (invC_reach _ _ R) as C. destruct_C C.
+  rewrite <- (L p).
+  destruct (GQ p) as [G|[G|[G|[G|(t & th & X1 & X2 & X3 & X4)]]]]; auto.
+  - right; right; right. split; [exact G|apply (Gsrc p G)].
+  - exfalso. specialize (Q _ _ X1). destruct (t_pc th); cbn in *; congruence.
+Qed.
+
+(* announce-only histories: latest = last announced head, or an error event for it *)
+Corollary quiescent_latest_announce_only cap s p :
+  reach fixed cap s -> quiescent s -> nexp s = false ->
+  lastRecv s p = 0 \/ latest s p = lastRecv s p \/ In (err_event p (lastRecv s p)) (events s).
+Proof.
+  intros R Q N. destruct (quiescent_latest _ _ p R Q) as [H|[H|[H|[_ H]]]]; auto. congruence.
+Qed.
+
+Lemma quiescent_smu_free cap s h : reach fixed cap s -> quiescent s -> smu s h = None.
+Proof.
+  intros R Q. pose proof (invB_reach _ _ R) as B. destruct_B B.
+  destruct (smu s h) as [t|] eqn:E; [|reflexivity]. exfalso.
+  destruct (Gsmu _ _ E) as (th & X1 & X2 & X3). specialize (Q _ _ X1).
+  destruct (t_pc th); cbn in *; congruence.
+Qed.
+
+(* every advertisement up to the latest sync was reported to the block hook exactly
+   once, provided no sync was given a stop CID beyond its head *)
+Theorem each_ad_reported_once cap s p :
+  reach fixed cap s -> quiescent s -> regress s = false ->
+  Permutation (ads_of p (hooks s)) (seq 1 (latest s p)).
+Proof.
+  intros R Q Hr. pose proof (invC_reach _ _ R) as C. destruct_C C.
+  destruct (Gidle p) as [G1 G2]; [intros h _; eapply quiescent_smu_free; eauto|].
+  pose proof (GO Hr p) as P. rewrite G1, app_nil_r, G2 in P. exact P.
+Qed.
+
+Corollary each_ad_reported_once_nodup cap s p :
+  reach fixed cap s -> quiescent s -> regress s = false ->
+  NoDup (ads_of p (hooks s)) /\ (forall a, In a (ads_of p (hooks s)) <-> 1 <= a <= latest s p).
+Proof.
+  intros R Q Hr. pose proof (each_ad_reported_once _ _ p R Q Hr) as P. split.
+  - eapply Permutation_NoDup; [apply Permutation_sym; exact P|apply seq_NoDup].
+  - intro a. split; intro H.
+    + apply (Permutation_in _ P) in H. apply in_seq in H. lia.
+    + apply (Permutation_in _ (Permutation_sym P)). apply in_seq. lia.
+Qed.
+
+(* announce-only histories with heads announced in chain order never give a sync a stop
+   beyond its head *)
+Theorem announce_only_no_regress cap s :
+  reach fixed cap s -> nexp s = false -> ordered s = true ->
+  regress s = false /\ forall p, latest s p <= lastTaken s p <= lastRecv s p.
+Proof.
+  intros R N O. pose proof (invC_reach _ _ R) as C. destruct_C C. apply GR; assumption.
+Qed.
+
+Corollary each_ad_reported_once_announce_only cap s p :
+  reach fixed cap s -> quiescent s -> nexp s = false -> ordered s = true ->
+  Permutation (ads_of p (hooks s)) (seq 1 (latest s p)).
+Proof.
+  intros R Q N O. apply (each_ad_reported_once cap); auto.
+  apply (announce_only_no_regress cap); auto.
+Qed.
+
+(* while a sync is running: reported ++ still owed = 1..goal, goal = head being synced *)
+Theorem reports_in_progress cap s p :
+  reach fixed cap s -> regress s = false ->
+  Permutation (ads_of p (hooks s) ++ gtodo s p) (seq 1 (goal s p)).
+Proof. intros R Hr. pose proof (invC_reach _ _ R) as C. destruct_C C. apply GO; assumption. Qed.
+
+(* the stop CID a sync works with is the latest sync at that moment (it cannot go stale
+   while the sync waits or runs) *)
+Theorem stop_is_current cap s t th :
+  reach fixed cap s -> threads s t = Some th -> stop_ok (t_pc th) = true ->
+  t_stop th = latest s (t_pub th).
+Proof. intros R H S. pose proof (invC_reach _ _ R) as C. destruct_C C. eapply Cstop; eauto. Qed.
+
+(* ------------------------------------------------------------------ *)
+(* Witnesses: the code as found (v0) violates the statements; the       *)
+(* repaired code still re-reports after a stale announcement.           *)
+(* The schedules are the traces the harness recorded on the real code.  *)
+
+Definition st_of (o : option st) : st := match o with Some s => s | None => init end.
+Definition is_some {A} (o : option A) : bool := match o with Some _ => true | None => false end.
+
+Lemma run_reach v cap ls :
+  is_some (run (stepf v cap) init ls) = true -> reach v cap (st_of (run (stepf v cap) init ls)).
+Proof.
+  intro H. exists ls. destruct (run (stepf v cap) init ls); [reflexivity|discriminate].
+Qed.
+
+Fixpoint steps (t n : nat) : list label :=
+  match n with O => [] | S k => Step t true :: steps t k end.
+
+(* RemoveHandler while an announce-triggered sync is inside handler.handle, then a new
+   announcement: a second handler runs a second sync of the same publisher *)
+Definition sched_remove_busy : list label :=
+  [Publish 0; Recv 0 1] ++ steps 0 3 ++ steps 1 6 ++ [Remove 0 true; Publish 0; Recv 0 2] ++ steps 0 3 ++ steps 2 6.
+
+Theorem one_sync_per_publisher_refuted :
+  exists s t1 t2 th1 th2, reach v0 0 s /\
+    threads s t1 = Some th1 /\ threads s t2 = Some th2 /\
+    in_session (t_pc th1) = true /\ in_session (t_pc th2) = true /\
+    t_pub th1 = t_pub th2 /\ t1 <> t2.
+Proof.
+  exists (st_of (run (stepf v0 0) init sched_remove_busy)), 1, 2. do 2 eexists.
+  split; [apply run_reach; vm_compute; reflexivity|].
+  split; [vm_compute; reflexivity|]. split; [vm_compute; reflexivity|].
+  cbn. split_all; try reflexivity. lia.
+Qed.
+
+(* quiescence of a concrete state: the thread map is a finite nest of updates *)
+Tactic Notation "quiesce" integer(n) :=
+  intros t th H;
+  do n (destruct t as [|t]; [vm_compute in H; inversion H; reflexivity|]);
+  vm_compute in H; discriminate H.
+
+(* two SyncAdChain calls of one publisher both read the latest sync before either takes
+   the sync lock: both report the whole chain *)
+Definition sched_two_explicit : list label :=
+  [Publish 0; Publish 0; Publish 0; Spawn 0] ++ steps 1 2 ++ [Spawn 0] ++ steps 2 2 ++ steps 1 11 ++ steps 2 11.
+
+Theorem each_ad_reported_once_refuted :
+  exists s, reach v0 0 s /\ quiescent s /\ regress s = false /\ ordered s = true /\
+    ~ Permutation (ads_of 0 (hooks s)) (seq 1 (latest s 0)).
+Proof.
+  exists (st_of (run (stepf v0 0) init sched_two_explicit)).
+  split; [apply run_reach; vm_compute; reflexivity|].
+  split; [quiesce 4|]. split; [vm_compute; reflexivity|]. split; [vm_compute; reflexivity|].
+  intro P. apply Permutation_length in P. vm_compute in P. discriminate.
+Qed.
+
+(* RemoveHandler while an announcement is pending: the old handler's goroutine syncs
+   the older head after the newer one: latest sync ends below the last announced head,
+   with no error event *)
+Definition sched_remove_pending : list label :=
+  [Publish 0; Recv 0 1] ++ steps 0 3 ++ [Remove 0 true; Publish 0; Recv 0 2] ++ steps 0 3 ++
+  steps 2 6 ++ steps 1 6 ++ steps 2 10 ++ steps 1 9.
+
+Theorem quiescent_latest_refuted :
+  exists s p, reach v0 0 s /\ quiescent s /\ nexp s = false /\ ordered s = true /\
+    ~ (lastRecv s p = 0 \/ latest s p = lastRecv s p \/ In (err_event p (lastRecv s p)) (events s)).
+Proof.
+  exists (st_of (run (stepf v0 0) init sched_remove_pending)), 0.
+  split; [apply run_reach; vm_compute; reflexivity|].
+  split; [quiesce 4|]. split; [vm_compute; reflexivity|]. split; [vm_compute; reflexivity|].
+  vm_compute. intros [H|[H|H]]; try discriminate.
+  repeat (destruct H as [H|H]; [discriminate|]). exact H.
+Qed.
+
+(* the repaired code: an announcement of head 3 is still pending when an explicit sync
+   records head 4; the goroutine then syncs head 3 with stop 4 and reports 3,2,1 again *)
+Definition sched_stale_announce : list label :=
+  [Publish 0; Publish 0; Publish 0; Recv 0 3] ++ steps 0 3 ++ [Publish 0; Spawn 0] ++ steps 2 15 ++
+  steps 1 18 ++ [Recv 0 4] ++ steps 0 3 ++ steps 3 16.
+
+Theorem each_ad_reported_once_mixed_refuted :
+  exists s, reach fixed 0 s /\ quiescent s /\ ordered s = true /\ nexp s = true /\
+    latest s 0 = lastRecv s 0 /\
+    ~ Permutation (ads_of 0 (hooks s)) (seq 1 (latest s 0)).
+Proof.
+  exists (st_of (run (stepf fixed 0) init sched_stale_announce)).
+  split; [apply run_reach; vm_compute; reflexivity|].
+  split; [quiesce 5|]. split; [vm_compute; reflexivity|]. split; [vm_compute; reflexivity|].
+  split; [vm_compute; reflexivity|].
+  intro P. apply Permutation_length in P. vm_compute in P. discriminate.
+Qed.
+
+(* ---- non-vacuity: reachable, quiescent states meeting the hypotheses ---- *)
+
+(* three announcements arrive while a sync is inside handler.handle: one goroutine waits,
+   the middle announcement is replaced; at the end latest = 4 and every ad reported once *)
+Definition sched_burst : list label :=
+  [Publish 0; Recv 0 1] ++ steps 0 3 ++ steps 1 6 ++ [Publish 0; Recv 0 2] ++ steps 0 3 ++
+  [Publish 0; Recv 0 3] ++ steps 0 3 ++ [Publish 0; Recv 0 4] ++ steps 0 3 ++ steps 1 10 ++ steps 2 18.
+
+Example burst_is_nontrivial :
+  let s := st_of (run (stepf fixed 0) init sched_burst) in
+  reach fixed 0 s /\ quiescent s /\ nexp s = false /\ ordered s = true /\ regress s = false /\
+  lastRecv s 0 = 4 /\ latest s 0 = 4 /\ rev (ads_of 0 (hooks s)) = [1; 4; 3; 2] /\
+  List.length (events s) = 2.
+Proof.
+  cbv zeta. split; [apply run_reach; vm_compute; reflexivity|].
+  split; [quiesce 4|]. repeat split; vm_compute; reflexivity.
+Qed.
+
+(* a non-quiescent state with a goroutine waiting for asyncMutex and one inside the session *)
+Example waiting_state_has_enabled_step :
+  let s := st_of (run (stepf fixed 1) init
+                    ([Publish 0; Recv 0 1] ++ steps 0 3 ++ steps 1 6 ++ [Publish 0; Recv 0 2] ++ steps 0 3)) in
+  reach fixed 1 s /\ ~ quiescent s /\ pending s 0 = Some 2 /\ amu s 0 = Some 1 /\ smu s 0 = Some 1 /\ sem s = [1].
+Proof.
+  cbv zeta. split; [apply run_reach; vm_compute; reflexivity|].
+  split; [|repeat split; vm_compute; reflexivity].
+  intro Q. specialize (Q 2). vm_compute in Q. specialize (Q _ eq_refl). discriminate.
+Qed.
